@@ -171,7 +171,11 @@ func boolInt(b bool) int {
 }
 
 func c20GenRec(r *rand.Rand) *c20RecC {
-	deep := r.Intn(8) == 0
+	every := 8
+	if c20Tier == "thorough" { // a nest of 1000 tpl levels costs up to 0.7 s: rarer among 60 000 cases
+		every = 24
+	}
+	deep := r.Intn(every) == 0
 	second := deep && r.Intn(2) == 0
 	c := &c20RecC{Prog: c20GenRecNodes(r, 0, &deep)}
 	if second { // a second long nest somewhere else: sums along one path cross the bound
